@@ -47,8 +47,10 @@ class PathEnd(Exception):
 
 
 class Outcome:
-    def __init__(self, kind, value=None, exc=None, ctx=None, env=None, ex=None):
+    def __init__(self, kind, value=None, exc=None, ctx=None, env=None, ex=None, node=None):
         self.kind, self.value, self.exc, self.ctx, self.env, self.ex = kind, value, exc, ctx, env, ex
+        self.node = node
+        self.label = ex.mod.stmt_label(node) if (ex is not None and node is not None) else ""
 
 
 class LoopSpec:
@@ -107,7 +109,7 @@ class Executor:
 
     def decide(self, cond, label=""):
         """Truth value of a condition; forks when symbolic.  Adds the choice to the path condition."""
-        c = V.truth(self, cond)
+        c = cond if isinstance(cond, (bool, z3.BoolRef)) else V.truth(self, cond)
         c = simplify_bool(c)
         if isinstance(c, bool):
             return c
@@ -139,6 +141,27 @@ class Executor:
 
     def ev_Constant(self, n, env):
         return n.value
+
+    def ev_test(self, n, env):
+        """Truth value of a test expression (if / while / assert / comprehension-if): and/or/not are
+        combined on truth values, so operands of any kind may be mixed."""
+        if isinstance(n, ast.BoolOp):
+            is_and = isinstance(n.op, ast.And)
+            parts = []
+            for e in n.values:
+                t = simplify_bool(self.ev_test(e, env))
+                if isinstance(t, bool):
+                    if t != is_and:
+                        return t if not parts else ((z3.And if is_and else z3.Or)(*parts, z3.BoolVal(t)))
+                    continue
+                parts.append(t)
+            if not parts:
+                return is_and
+            return parts[0] if len(parts) == 1 else (z3.And(*parts) if is_and else z3.Or(*parts))
+        if isinstance(n, ast.UnaryOp) and isinstance(n.op, ast.Not):
+            t = simplify_bool(self.ev_test(n.operand, env))
+            return (not t) if isinstance(t, bool) else z3.Not(t)
+        return V.truth(self, self.ev(n, env))
 
     def ev_Name(self, n, env):
         if n.id in env:
@@ -193,28 +216,40 @@ class Executor:
                      None if n.step is None else self.ev(n.step, env))
 
     def ev_IfExp(self, n, env):
-        if self.decide(self.ev(n.test, env), "ifexp"):
+        if self.decide(self.ev_test(n.test, env), "ifexp"):
             return self.ev(n.body, env)
         return self.ev(n.orelse, env)
 
     def ev_BoolOp(self, n, env):
-        # python semantics: short circuit, value of last evaluated operand
+        # python semantics: short circuit, value of the last evaluated operand.  Boolean-valued
+        # symbolic operands are combined into one formula (no fork): their evaluation has no
+        # effect on the state, only possibly extra obligations (conservative).
         is_and = isinstance(n.op, ast.And)
+        pending = []
         val = None
-        for e in n.values:
+        for pos, e in enumerate(n.values):
             val = self.ev(e, env)
-            t = V.truth(self, val)
-            t = simplify_bool(t)
+            t = simplify_bool(V.truth(self, val))
             if isinstance(t, bool):
                 if t != is_and:
-                    return val
+                    if not pending:
+                        return val
+                    pending.append(z3.BoolVal(t))
+                    break
                 continue
-            # symbolic: only boolean-valued operands supported here
-            rest = n.values[n.values.index(e) + 1:]
-            if not rest:
+            if isinstance(val, z3.BoolRef) or isinstance(t, z3.BoolRef) and isinstance(val, (z3.BoolRef, bool)):
+                pending.append(t)
+                continue
+            # symbolic truth of a non-boolean value: fork
+            if pending:
+                raise Unsupported("mixed boolean / non-boolean operands in and/or", n)
+            last = pos == len(n.values) - 1
+            if last:
                 return val
             if self.decide(t, "boolop") != is_and:
-                return (not is_and)
+                return val
+        if pending:
+            return (z3.And(*pending) if is_and else z3.Or(*pending)) if len(pending) > 1 else pending[0]
         return val
 
     def ev_UnaryOp(self, n, env):
@@ -254,7 +289,12 @@ class Executor:
         args, kw = [], {}
         for a in n.args:
             if isinstance(a, ast.Starred):
-                args.extend(V.iterate(self, self.ev(a.value, env), a))
+                sv = self.ev(a.value, env)
+                conc = V.try_concrete_iter(self, sv)
+                if conc is None:
+                    args.append(V.StarSeq(V.as_seq(self, sv, a)))      # *symbolic_sequence
+                else:
+                    args.extend(conc)
             else:
                 args.append(self.ev(a, env))
         for k in n.keywords:
@@ -287,7 +327,7 @@ class Executor:
                 self.bind(gen.target, v, e2, node)
                 ok = True
                 for cond in gen.ifs:
-                    if not self.decide(self.ev(cond, e2), "comp.if"):
+                    if not self.decide(self.ev_test(cond, e2), "comp.if"):
                         ok = False
                         break
                 if not ok:
@@ -312,7 +352,7 @@ class Executor:
             def keep(k):
                 e2 = dict(env0)
                 self.bind(gen.target, seq.item(k), e2, node)
-                cs = [V.truth(self, self.ev(c, e2)) for c in gen.ifs]
+                cs = [self.ev_test(c, e2) for c in gen.ifs]
                 return V.and_all(cs)
             return V.filtered_seq(self, seq, item, keep, node)
         return V.Seq(seq.n, item)
@@ -403,13 +443,13 @@ class Executor:
             raise Unsupported("augmented assignment target", s)
 
     def st_If(self, s, env):
-        if self.decide(self.ev(s.test, env), "if"):
+        if self.decide(self.ev_test(s.test, env), "if"):
             self.run(s.body, env)
         else:
             self.run(s.orelse, env)
 
     def st_Assert(self, s, env):
-        c = V.truth(self, self.ev(s.test, env))
+        c = simplify_bool(self.ev_test(s.test, env))
         self.oblige(f"assert@{self.mod.stmt_label(s)}", c if not isinstance(c, bool) else z3.BoolVal(c),
                     "assert", s)
         if not isinstance(c, bool):
@@ -456,16 +496,14 @@ class Executor:
     # loops ---------------------------------------------------------
     def st_For(self, s, env):
         self.loop_ordinal += 1
-        ordinal = self.loop_ordinal
+        ordinal = self.mod.loop_ordinal(s, self.loop_ordinal)
         it = self.ev(s.iter, env)
         conc = V.try_concrete_iter(self, it)
         if s.orelse:
             raise Unsupported("for/else", s)
         if conc is not None:
             # concrete length: unroll (nested symbolic loops inside keep their own ordinal)
-            saved_ord = self.loop_ordinal
             for v in conc:
-                self.loop_ordinal = saved_ord
                 self.bind(s.target, v, env, s)
                 try:
                     self.run(s.body, env)
@@ -482,7 +520,7 @@ class Executor:
 
     def st_While(self, s, env):
         self.loop_ordinal += 1
-        ordinal = self.loop_ordinal
+        ordinal = self.mod.loop_ordinal(s, self.loop_ordinal)
         spec = self.loops.get(ordinal)
         if spec is None:
             raise Unsupported(f"while loop {ordinal} has no invariant", s)
@@ -545,7 +583,7 @@ class Executor:
                     self.bind(s.target, seq.item(k), env, s)
                     self.run(s.body, env)
                 else:
-                    if not self.decide(self.ev(s.test, env), f"{L}.guard"):
+                    if not self.decide(self.ev_test(s.test, env), f"{L}.guard"):
                         raise PathEnd()
                     self.run(s.body, env)
             except ContinueSig:
@@ -566,7 +604,7 @@ class Executor:
         else:
             self.assume(k >= 0)
             self._assume_inv(spec, env, k)
-            c = V.truth(self, self.ev(s.test, env))
+            c = simplify_bool(self.ev_test(s.test, env))
             if c is True:
                 raise PathEnd()            # `while True` is only left through break
             if c is not False:
@@ -592,7 +630,7 @@ def explore(modinfo, fndef, registry, make_env, function_name, loops=None, owner
         except ReturnSig as r:
             out = Outcome("return", r.value, ctx=ctx, env=env, ex=ex)
         except RaiseSig as r:
-            out = Outcome("raise", r.info, exc=r.exc, ctx=ctx, env=env, ex=ex)
+            out = Outcome("raise", r.info, exc=r.exc, ctx=ctx, env=env, ex=ex, node=r.node)
         except PathEnd:
             out = Outcome("end", ctx=ctx, env=env, ex=ex)
         work.extend(ex.pending)
